@@ -333,6 +333,16 @@ func (it *Interp) Branch(c *smt.Term) bool {
 		it.take(c, d)
 		return true
 	}
+	if it.genericBothWays(c) {
+		// an algebraic equation between independent symbolic quantities: both outcomes are taken without
+		// asking the (non-linear) solver; an outcome that is in fact infeasible only adds a path whose
+		// obligations are discharged vacuously
+		alt := append(append([]dec{}, p.Decs...), dec{taken: false})
+		it.push(alt)
+		d := dec{taken: true}
+		it.take(c, d)
+		return true
+	}
 	rt := it.feasible(c)
 	var d dec
 	switch rt {
@@ -824,4 +834,38 @@ func (it *Interp) nondetSource(what string) {
 	}
 	it.S.Pop()
 	panic(&pathEnd{kind: "stop"})
+}
+
+// genericBothWays recognises branch conditions of the crypto model that are satisfiable and falsifiable for
+// generic values: p(atoms) ≡ 0 (mod n) for a polynomial with at least two monomials, and equality of the
+// coordinates of two syntactically different points.
+func (it *Interp) genericBothWays(c *smt.Term) bool {
+	if it.Cfg.NoSlice {
+		return false
+	}
+	if c.Op == smt.ONot {
+		c = c.Args[0]
+	}
+	if c.Op != smt.OEq {
+		return false
+	}
+	a, b := c.Args[0], c.Args[1]
+	pm, _ := it.M.extra["polys"].(map[*smt.Term]*Poly)
+	isPoly := func(t *smt.Term) bool {
+		if pm == nil {
+			return false
+		}
+		p, ok := pm[t]
+		return ok && len(p.terms) >= 2
+	}
+	if (a.IsConst() && a.Val.Sign() == 0 && isPoly(b)) || (b.IsConst() && b.Val.Sign() == 0 && isPoly(a)) {
+		return true
+	}
+	isCoord := func(t *smt.Term) bool {
+		return t.Op == smt.OApp && (t.Name == "secp.x" || t.Name == "secp.y")
+	}
+	if isCoord(a) && isCoord(b) && a.Name == b.Name && a.Args[0] != b.Args[0] {
+		return true
+	}
+	return false
 }
